@@ -35,7 +35,7 @@ for d in sorted(glob.glob(os.path.join(ROOT, "seeded", "*"))):
     rows.append("| `%s` | %s | %s | %s |" % (name, summary, "; ".join(first), "; ".join(later) or "-"))
 n_first = sum(1 for r in rows if "**missed**" not in r.split("|")[3] and "caught" in r.split("|")[3])
 n_other = sum(1 for r in rows if "**missed**" in r.split("|")[3] and "caught" in r.split("|")[3].replace("**missed**", ""))
-summary = ("%d changes kept (two rounds of 20: the second round was told what the first had done and asked for a different "
+summary = ("%d changes kept (rounds of 20 in which every later round was told what the earlier ones had done and asked for a different "
            "mechanism). On the first run, before anything was strengthened, %d were caught by the check of their own property, "
            "%d more were missed by it but caught by the check of another property, and the rest were missed; every miss was a gap "
            "in the *inputs* a generator produced (no pattern with an ERROR root, no file starting with white space, no "
